@@ -97,10 +97,10 @@ def run(ctx):
             other_errors[type(e).__name__] = other_errors.get(type(e).__name__, 0) + 1
             return False
 
-    mc, mccore, full, core, nvar = (3, 4, 4, 5, 3) if ctx.quick else (4, 6, 5, 6, 6)
+    mc, mccore, full, core, nvar = (3, 4, 4, 5, 3) if ctx.quick else (4, 5, 5, 6, 4)
     wd = tlc.prepare_dir(ctx.build / "tlc", ["fn"])
     env = {"NU_MC": mc, "NU_MCCORE": mccore, "NU_FULL": full, "NU_CORE": core, "NU_INPUTS": wd / "inputs.ndjson",
-           "NU_CASES": wd / "cases.ndjson", "NU_VERDICT": wd / "verdict.json"}
+           "NU_CASES": wd / "cases.ndjson", "NU_VERDICT": wd / "verdict.ndjson"}
 
     # ---- (1) TLC: the property holds for the MODEL of the validator, every parser run terminates, sanity of the parser ----
     (wd / "MC.cfg").write_text(tlc.mk_cfg(invariants=["TypeOK", "Terminates", "Safe", "HostNeedsSlashesOrHttp", "StepIsRun"]))
@@ -125,8 +125,10 @@ def run(ctx):
 
     # ---- (2) inputs from TLC, answers from the real validator -----------------------------------------------------------------
     (wd / "Idle.cfg").write_text(tlc.mk_cfg(init="IdleInit", next="IdleNext"))
-    _evaluate(wd, "NextUrlGen", env)
-    words = [json.loads(l)["w"] for l in open(env["NU_INPUTS"]) if l.strip()]
+    words = []
+    for part in ("full", "core"):  # two parts: TLC's limit on the size of a set
+        _evaluate(wd, "NextUrlGen", dict(env, NU_PART=part))
+        words += [json.loads(l)["w"] for l in open(env["NU_INPUTS"]) if l.strip()]
     n_tlc_words = len(words)
     # insertion probes on longer URLs (beyond the length bound): every token at every position
     bases = [["https", "ss", "good", "s", "evil", "q", "evil"], ["ss", "good", "colon", "digit", "digit", "s"],
@@ -155,18 +157,43 @@ def run(ctx):
 
     # ---- (3) TLC judges ----------------------------------------------------------------------------------------------------------
     _evaluate(wd, "NextUrlVerdict", env)
-    verdict = json.loads((wd / "verdict.json").read_text())
-    assert verdict["n"] == len(cases), (verdict["n"], len(cases))
-    if min(verdict["accepted"], verdict["accepted_good"], verdict["lands"]["other"], verdict["lands"]["self"],
-           verdict["lands"]["none"], verdict["weak_unsafe"]) == 0:
+    judged = [json.loads(l) for l in open(env["NU_VERDICT"]) if l.strip()]
+    assert len(judged) == len(cases), (len(judged), len(cases))
+    lands = {}
+    for j in judged:
+        lands[j["lands"]] = lands.get(j["lands"], 0) + 1
+    verdict = {"accepted": sum(1 for c in cases if any(c["acc"])), "lands": lands,
+               "accepted_good": sum(1 for c, j in zip(cases, judged) if any(c["acc"]) and j["lands"] == "good"),
+               "accepted_none": sum(1 for c, j in zip(cases, judged) if any(c["acc"]) and j["lands"] == "none"),
+               "weak_unsafe": sum(1 for j in judged if j["weak"] and j["lands"] == "other")}
+    if "not-a-word" in lands:
+        raise RuntimeError("harness produced a word outside the specification's alphabet")
+    if min(verdict["accepted_good"], lands.get("other", 0), lands.get("self", 0), lands.get("none", 0), verdict["weak_unsafe"]) == 0:
         raise RuntimeError(f"vacuous verdict: {verdict}")
-    for b in verdict["bad"]:
-        c = cases[b["i"] - 1]
-        accepted = [s for s, a in zip(strings[b["i"] - 1], c["acc"]) if a]
-        ctx.violation(f"nexturl:accepted-lands-{b['lands']}:{features(c['w'])}",
-                      {"tokens": c["w"], "accepted_strings": accepted, "browser_lands": b["lands"],
+    for i, (c, j) in enumerate(zip(cases, judged)):
+        if j["ok"]:
+            continue
+        accepted = [s for s, a in zip(strings[i], c["acc"]) if a]
+        ctx.violation(f"nexturl:accepted-lands-{j['lands']}:{features(c['w'])}",
+                      {"tokens": c["w"], "accepted_strings": accepted, "browser_lands": j["lands"],
                        "codepoints": [[ord(x) for x in s] for s in accepted[:1]]})
-    drift = [cases[i - 1] for i in verdict["drift"]]
+    # information only: aiohttp re-serialises the Location header through yarl; is the host still the accepted one?
+    moved, nloc = [], 0
+    for ss, c in zip(strings, cases):
+        for s_, a in zip(ss, c["acc"]):
+            if a:
+                nloc += 1
+                try:
+                    loc = web.HTTPFound(s_).headers["Location"]
+                    if urlparse(loc).netloc not in good_hosts:
+                        moved.append((s_, loc))
+                except Exception as e:  # noqa: BLE001
+                    moved.append((s_, repr(e)))
+    ctx.cov["location_headers_rebuilt_by_aiohttp"] = {"checked": nloc, "host_changed_or_error": len(moved)}
+    if moved:
+        ctx.note(f"aiohttp (this sandbox's version) rewrote {len(moved)} accepted URL(s) so that the Location header's netloc is no longer "
+                 f"the accepted host, e.g. {moved[0]!r} (information only; the property is judged on the accepted string)")
+    drift = [c for c, j in zip(cases, judged) if j["model"] != c["canon"]]
     if drift:
         ctx.note(f"the TLA+ model of the validator (PyAccepts) and the real function disagree on {len(drift)} word(s) in canonical spelling, "
                  f"e.g. {drift[0]['w']} real={drift[0]['canon']}; the verdict above is on the real answers")
@@ -175,12 +202,12 @@ def run(ctx):
     ctx.cov.update(traces_validated_against_impl=ncalls, evaluations=ncalls,
                    distinct_nontrivial=sum(1 for c in cases if len(c["w"]) >= 2), exhaustive=True,
                    rule=f"TLC model-checks the parser state machine and Safe(model validator) on all words <= {mc} (16 tokens) / <= {mccore} (core); "
-                        f"B3: all {n_tlc_words} words <= {full} over 16 tokens and <= {core} over the 8-token core, plus {len(words) - n_tlc_words} insertion "
+                        f"B3: all {n_tlc_words} words <= {full} over 16 tokens (15 at length 5: without '?') and <= {core} over the 8-token core, plus {len(words) - n_tlc_words} insertion "
                         f"probes on longer URLs, each concretised {nvar} ways + canonical; every answer of the real validator judged by TLC; "
                         "non-trivial = word of >= 2 tokens")
     ctx.cov["states"] += 2 * ncalls
     ctx.cov["transitions"] += ncalls
-    ctx.cov["verdict_counts"] = {k: verdict[k] for k in ("accepted", "accepted_good", "accepted_none", "lands", "weak_unsafe")}
+    ctx.cov["verdict_counts"] = verdict
     ctx.cov["model_drift"] = len(drift)
     acc_cases = [i for i, c in enumerate(cases) if any(c["acc"])]
     for i in acc_cases[:3] + acc_cases[len(acc_cases) // 2:len(acc_cases) // 2 + 2]:
@@ -188,7 +215,8 @@ def run(ctx):
     ctx.sample({"tokens": ["ss", "evil", "bs", "at", "good"], "string": concretise(R, ["ss", "evil", "bs", "at", "good"], 0),
                 "accepted": accepts(concretise(R, ["ss", "evil", "bs", "at", "good"], 0))})
     ctx.assume("a browser follows the redirect with the WHATWG URL parser against the base https://auth.<domain>/...; NextUrl.tla renders that "
-               "parser for the token alphabet (no percent-encoding, IDNA mapping, IPv6 literals or non-ASCII characters)",
+               "parser for the token alphabet (no percent-encoding, IDNA mapping, IPv6 literals or non-ASCII characters); the browser is taken to "
+               "receive the accepted string (aiohttp's yarl re-serialisation of the Location header is measured and reported, not modelled)",
                "good hosts are exactly the netlocs of deploy_config.external_url(s, '/') for batch, auth, ci, monitoring (default namespace, "
                "domain hail.test); the same name in another letter case or with a trailing dot is the same host; every other name, including "
                "other names under the deployment's domain, is another host",
